@@ -412,6 +412,10 @@ class SecopClient(ProxyClient):
             entry = self.txq.get()
             if entry is None:
                 break
+            if entry[1].is_set():
+                # the caller has given up waiting (see get_reply) while the request was
+                # held back: do not send it any more, it would block the next ones
+                continue
             request = entry[0]
             reply_action = REQUEST2REPLY.get(request[0], None)
             if reply_action:
@@ -443,6 +447,9 @@ class SecopClient(ProxyClient):
                         if prev is entry:
                             self.active_requests.pop(key)
                             break
+                    # requests held back because of this one may be sent now
+                    while not self.pending.empty():
+                        self.txq.put(self.pending.get())
                 # may raise ConnectionClosed
                 reply = self.io.readline()
                 if reply is None:
@@ -700,6 +707,7 @@ class SecopClient(ProxyClient):
         """wait for reply and return it"""
         if not entry[1].wait(10):  # event
             self.cleanup.append(entry)
+            entry[1].set()  # mark as given up, in case it is not yet sent
             raise TimeoutError('no response within 10s')
         if not entry[2]:  # reply
             if self._shutdown.is_set():
